@@ -78,15 +78,15 @@ func successReturns(f *ssa.Function) []*ssa.Return {
 	ei := errorResultIndex(f)
 	var out []*ssa.Return
 	for _, ret := range returnsOf(f) {
-		if ei < 0 || ei >= len(ret.Results) || isNilConst(ret.Results[ei]) {
+		if ei < 0 || ei >= len(ret.Results) || isNilConst(res(ret, ei)) {
 			out = append(out, ret)
 			continue
 		}
-		if !mayBeNilValue(ret.Results[ei], 0) {
+		if !mayBeNilValue(res(ret, ei), 0) {
 			continue
 		}
 		// `if err != nil { return nil, err }`: the returned value was tested non-nil on every path to the return
-		ev := ret.Results[ei]
+		ev := res(ret, ei)
 		if guardedNonNil(ret, ev) {
 			continue
 		}
@@ -145,7 +145,7 @@ func errorReturnsOnly(f *ssa.Function, b *ssa.BasicBlock) bool {
 	any := false
 	ReturnsFrom(b, func(r *ssa.Return) {
 		any = true
-		if ei >= len(r.Results) || !(definitelyNonNil(r.Results[ei], 0) || guardedNonNil(r, r.Results[ei])) {
+		if ei >= len(r.Results) || !(definitelyNonNil(res(r, ei), 0) || guardedNonNil(r, res(r, ei))) {
 			ok = false
 		}
 	})
@@ -209,4 +209,16 @@ func paramOfType(f *ssa.Function, T types.Type) *ssa.Parameter {
 		}
 	}
 	return nil
+}
+
+// res returns result #i of a Return, looking through the result cells go/ssa introduces when the function has
+// deferred calls (`*cell = v; rundefers; t = *cell; return t`).
+func res(ret *ssa.Return, i int) ssa.Value {
+	v := ret.Results[i]
+	if u, ok := v.(*ssa.UnOp); ok {
+		if sv := localLoadValue(u); sv != nil {
+			return sv
+		}
+	}
+	return v
 }
